@@ -68,7 +68,7 @@ func short(k string) string {
 // Universe returns the key universe, list prefixes, after values and limits.
 func Universe(thorough bool) (keys, prefixes, afters []string, limits []int) {
 	long := "z/" + strings.Repeat("k", 253)
-	keys = []string{"a", "ab", "a/b", "a/b/c", "a/c", "d/x", "é/ü"}
+	keys = []string{"a", "ab", "a/b", "a/b/c", "a/c", "d/x.temp", "é/ü"}
 	if thorough {
 		keys = append(keys, long, "a-b")
 	}
@@ -286,7 +286,7 @@ func Run(res *vout.Result, st *Stack, depth int) {
 		alphabet = append(alphabet, Op{"delete", k, ""})
 	}
 	for _, k := range keys {
-		alphabet = append(alphabet, Op{"put", k, "2"})
+		alphabet = append(alphabet, Op{"put", k, ""}) // empty value: present, not absent
 	}
 	if st.ReadOps {
 		for _, k := range keys {
